@@ -444,12 +444,9 @@ class Checker:
             raise TypeErr('invalidFilterArity', node)
         arg = self.typification(kids[-1], i)
         if is_any(arg) or arg == EMPTY:
-            # the parameters are not constrained by an untyped argument; they still have to be expressions
+            # the parameters are not constrained by an untyped argument; they still have to be well-typed themselves
             for p in kids[:-1]:
-                try:
-                    self.typification(p, i)
-                except TypeErr:
-                    raise Unspec('filter of an untyped argument with ill-typed parameters')
+                self.typification(p, i)
             return EMPTY
         if arg[0] != 's' or arg[1][0] != 't':
             raise TypeErr('invalidFilterArgumentType', kids[-1])
